@@ -2,12 +2,12 @@
  * C08/bbmove: block_mover() -- planning and copying of the blocks that must leave, and the bad-blocks inode
  * protocol (patterns P + D).
  *
- * Real: the static block_mover(), get_new_block(), init_block_alloc() (resize/resize2fs.c) and the relocation table
- * (resize/extent.c: create, add with run coalescing, iterate, free).  Stubbed: the bitmap layer (bytemap.h, one byte per
+ * Real: the static block_mover(), get_new_block(), init_block_alloc() (resize/resize2fs.c).  Stubbed: the relocation table
+ * (a list model without run coalescing: create / add / iterate / free; the real one is decided in harness extent), the bitmap layer (bytemap.h, one byte per
  * block), the bad-blocks list (a 2-slot list model: read / test / del / free / ext2fs_update_bb_inode recorded with a
  * symbolic result), ext2fs_block_alloc_stats2 (sets the bit), block I/O (records which block is copied where).
  *
- * Old file system 2 groups x 8 blocks shrinks to 1 group (new size 9); in-use set, move set, reserve set below the new
+ * Old file system 2 groups x 4 blocks shrinks to 1 group (new size 5); in-use set, move set, reserve set below the new
  * end, 0..2 bad blocks anywhere: symbolic.
  * Decided:
  *   - on EVERY path that returns 0: if a bad block was dropped from the list (it was in use and scheduled for moving)
@@ -21,7 +21,7 @@
  */
 #include "resize/resize2fs.c"
 
-#define BPG 8
+#define BPG 4
 #define ITB 2
 #define OLD_SIZE (1 + 2 * BPG)
 #define NEW_SIZE (1 + BPG)
@@ -80,6 +80,37 @@ errcode_t ext2fs_update_bb_inode(ext2_filsys fs, ext2_badblocks_list l)
 }
 void ext2fs_badblocks_list_free(ext2_badblocks_list l) { (void) l; vf_bb_freed++; }
 
+/* STUB: relocation table as a list model (no coalescing): ext2fs_create_extent_table / _add_extent_entry / _iterate_extent / _free */
+#define NX NB
+static struct { __u64 o[NX], n[NX]; int num, cur, live, freed; } vf_xt;
+errcode_t ext2fs_create_extent_table(ext2_extent *ret, __u64 size)
+{
+	(void) size;
+	vf_xt.num = 0; vf_xt.cur = 0; vf_xt.live = 1;
+	*ret = (ext2_extent) &vf_xt;
+	return 0;
+}
+void ext2fs_free_extent_table(ext2_extent e) { (void) e; vf_xt.freed++; vf_xt.live = 0; }
+errcode_t ext2fs_add_extent_entry(ext2_extent e, __u64 o, __u64 n)
+{
+	int k;
+	if (e != (ext2_extent) &vf_xt || !vf_xt.live || vf_xt.num >= NX) { vf_oob = 1; return 0; }
+	for (k = 0; k < NX; k++) if (k == vf_xt.num) { vf_xt.o[k] = o; vf_xt.n[k] = n; }
+	vf_xt.num++;
+	return 0;
+}
+errcode_t ext2fs_iterate_extent(ext2_extent e, __u64 *o, __u64 *n, __u64 *sz)
+{
+	int k;
+	if (e != (ext2_extent) &vf_xt || !vf_xt.live) vf_oob = 1;
+	if (!o) { vf_xt.cur = 0; return 0; }
+	*o = *n = *sz = 0;
+	for (k = 0; k < NX; k++)
+		if (k == vf_xt.cur && k < vf_xt.num) { *o = vf_xt.o[k]; *n = vf_xt.n[k]; *sz = 1; }
+	if (vf_xt.cur < vf_xt.num) vf_xt.cur++;
+	return 0;
+}
+
 /* STUB: ext2fs_block_alloc_stats2(): sets the bit in fs->block_map */
 void ext2fs_block_alloc_stats2(ext2_filsys fs, blk64_t blk, int inuse)
 {
@@ -118,7 +149,7 @@ int main(void)
 	int p, q, ndrop = 0, nmove = 0, nfree = 0;
 
 	VF_INPUT(IN);
-	/* BOUND: 2 groups x 8 blocks -> 1 group, 1 KiB blocks, 0..2 bad blocks, no bigalloc, no progress hook */
+	/* BOUND: 2 groups x 4 blocks -> 1 group, 1 KiB blocks, 0..2 bad blocks, no bigalloc, no progress hook */
 	ASSUME(IN.upd_err != ENOSPC);
 	ASSUME(IN.nbb <= 2 && IN.bb[0] >= 1 && IN.bb[0] < NB && IN.bb[1] >= 1 && IN.bb[1] < NB && IN.bb[0] != IN.bb[1]);
 	for (p = 0; p < NB; p++) ASSUME(IN.inuse[p] <= 1 && IN.move[p] <= 1 && IN.rsv[p] <= 1);
@@ -164,7 +195,9 @@ int main(void)
 	PROP(!vf_oob && !vf_io_bad && vf_bb_read == 1, "bitmap / bad-block / I/O calls well formed; reads and writes pair up");
 	PROP(vf_bb_freed == 1 && !vf_upd_after_free, "the bad-blocks list is released exactly once on every path, never used afterwards");
 	PROP(rc == 0 || rc == ENOSPC || (rc == (errcode_t) IN.upd_err && vf_nupd == 1), "only the documented errors");
-	PROP(vf_ndel == ndrop && !vf_del_after_upd, "exactly the in-use bad blocks scheduled for moving are dropped from the list");
+	PROP(!vf_del_after_upd && vf_ndel <= ndrop, "only in-use bad blocks scheduled for moving are dropped from the list, before it is written back");
+	if (rc != ENOSPC)
+		PROP(vf_ndel == ndrop, "every in-use bad block scheduled for moving is dropped from the list");
 	if (rc == 0 || (rc != ENOSPC && vf_nupd == 1)) {
 		if (ndrop)
 			PROP(vf_nupd == 1 && vf_upd_ok, "a bad block was dropped: the bad-blocks inode is rewritten exactly once from the updated list (also when nothing else moves)");
@@ -196,9 +229,9 @@ int main(void)
 			}
 		}
 		if (nmove == 0)
-			PROP(vf_rfs.bmap == 0 && vf_nflush == 0, "nothing to move: block map dropped, nothing copied or flushed");
+			PROP(vf_rfs.bmap == 0 && vf_xt.freed == 1 && vf_nflush == 0, "nothing to move: block map dropped, nothing copied or flushed");
 		else
-			PROP(vf_rfs.bmap != 0 && vf_nflush == 1, "blocks moved: block map kept for inode_scan_and_fix, channel flushed");
+			PROP(vf_rfs.bmap != 0 && vf_xt.freed == 0 && vf_nflush == 1, "blocks moved: block map kept for inode_scan_and_fix, channel flushed");
 	}
 	VF_END();
 	return 0;
